@@ -57,6 +57,8 @@ impl LspSession {
             let uri = self.tw.uri(name);
             self.c.notify("textDocument/didClose", serde_json::json!({"textDocument": {"uri": uri}}));
             self.c.sent_notifications -= 1;
+            // the didClose handler has begin/end schedule points too: it counts for wait_idle
+            self.notifications_sent += 1;
         }
     }
 
